@@ -24,6 +24,8 @@ MethodInvokeInfo = record(P + "cpp_types.MethodInvokeInfo",
 
 # ---------------------------------------------------------------- heap fields (Burstall-Bornat: one array per field name)
 T = P + "cpp_types.terminal"
+TERM = RefOf(T)
+VAL = RefOf(P + "cpp_representation.cpp_value")
 field("_type", Str)
 field("_p_depth", Int)
 field("_is_const", Bool)
